@@ -41,6 +41,10 @@ func flatBindings(service, method string) []RuleSpec {
 		if r := benchRuleFor(method); r != nil {
 			return r.flat()
 		}
+		return nil
+	}
+	if service != routeService {
+		return annotationBindings(service, method)
 	}
 	return nil
 }
